@@ -511,6 +511,9 @@ class Tally(StatisticsInterface):
         mean = self.mean()
         if math.isnan(mean) or math.isnan(self.stdev(False)):
             return (math.nan, math.nan)
+        if alpha == 0.0:
+            # 100% confidence: unbounded interval, clipped to the data range
+            return (self._min, self._max)
         level = 1.0 - alpha / 2.0
         z = NormalDist(0.0, 1.0).inv_cdf(level)
         confidence = z * math.sqrt(self.variance(False) / self._n)
